@@ -37,7 +37,17 @@ QuotedText(s) == StrToken(s, 0)
 \* ... or with every escape the JSON string syntax offers (\/ \b \f \n \r \t, \uXXXX, surrogate pairs)
 QuotedTextE(s, st) == StrToken(s, IF "esc" \in DOMAIN st THEN st.esc ELSE 0)
 
-NameText(n, st) == IF st.quote \/ ~IsBareName(n) THEN QuotedTextE(n, st) ELSE n
+\* a bare name may itself carry escapes: nesc = 1 writes its first character as \uXXXX, 2 as \u{XXXX}
+NameEsc(st) == IF "nesc" \in DOMAIN st THEN st.nesc ELSE 0
+EscFirst(n, form) ==
+  LET cps == CodePoints(n)
+      c == cps[1]
+      hex == <<HexDigit(c \div 4096, FALSE), HexDigit((c \div 256) % 16, FALSE), HexDigit((c \div 16) % 16, FALSE), HexDigit(c % 16, FALSE)>>
+  IN (IF form = 1 THEN <<92, 117>> \o hex ELSE (<<92, 117, 123>> \o hex) \o <<125>>) \o EncodeCps(Tail(cps))
+NameText(n, st) ==
+  IF st.quote \/ ~IsBareName(n) THEN QuotedTextE(n, st)
+  ELSE IF NameEsc(st) > 0 /\ CodePoints(n)[1] < 55296 THEN EscFirst(n, NameEsc(st))
+  ELSE n
 
 IndexText(ix, st) ==
   IF ix.t = "n" THEN IntTextOf(ix.v)
@@ -118,6 +128,7 @@ PathPlain(ps) == \A i \in 1..Len(ps) : StepPlain(ps[i])
 KpElemText(e, st) ==
   IF "i" \in DOMAIN e THEN IntTextOf(e.i)
   ELSE IF "q" \in DOMAIN e THEN QuotedTextE(e.q, st)
+  ELSE IF NameEsc(st) > 0 /\ CodePoints(e.n)[1] < 55296 THEN EscFirst(e.n, NameEsc(st))
   ELSE e.n
 KeyPathText(kp, st) ==
   ((WS(st) \o <<123>>) \o (IF Len(kp) = 0 THEN WS(st) ELSE JoinWith([i \in 1..Len(kp) |-> (WS(st) \o KpElemText(kp[i], st)) \o WS(st)], <<44>>)))
